@@ -56,7 +56,7 @@ static void  cl_run(int k)
     if (k >= cl_early && run_n == cl_early) {
         /* first cleanup after the join: a joined (or detached, exiting) thread can stay listed in /proc/self/task for a
          * moment after pthread_join returned; wait for the listing to settle before counting */
-        for (int ms = 0; nthreads() != cl_base_thr && ms < 3000; ms++) usleep(1000);
+        for (int ms = 0; nthreads() != cl_base_thr && ms < 10000; ms++) usleep(1000);
     }
     if (run_n < MAXCL) { run_idx[run_n] = k; run_thr[run_n] = nthreads(); run_n++; }
     cl_orig[k]();
@@ -260,9 +260,9 @@ int main(void)
         int post_ok = 1;
         if (rf) { qthread_finalize(); qthread_finalize(); post_ok = qlib == NULL; }    /* redundant finalize: no-op */
         /* blocking-call proxy threads are detached: stopwork waits for their count, not for the OS threads to be gone.
-         * Give an exiting proxy up to 5 s to disappear from /proc/self/task (workers were joined: they are gone). */
+         * Give an exiting proxy up to 20 s to disappear from /proc/self/task (workers were joined: they are gone). */
         int settle_ms = 0;
-        while (nthreads() != base_thr && settle_ms < 5000) { usleep(1000); settle_ms++; }
+        while (nthreads() != base_thr && settle_ms < 20000) { usleep(1000); settle_ms++; }
         size_t lb, ly; c19_ledger_live(&lb, &ly);
         struct mallinfo2 mi = mallinfo2();
         printf("Z cycle=%d threads=%d fds=%d ledger_blocks=%zu ledger_bytes=%zu uordblks=%zu atexit_calls=%d lists_empty=%d qlib_null=%d "
